@@ -64,6 +64,12 @@ class Ledger:
                     and ln not in committed_exact:
                 self.authors.setdefault(norm(ln), set()).update((who, HUMAN))
 
+    def resolver_touched(self, lines):
+        for ln in lines:
+            k = norm(ln)
+            if k in self.authors:
+                self.authors[k].add(HUMAN)
+
     def who(self, line):
         """Set of acceptable authors for this text; None = unconstrained (blank / unknown)."""
         k = norm(line)
